@@ -3,6 +3,7 @@ package syncp
 import (
 	"context"
 	"fmt"
+	"strings"
 	"sync"
 	"testing"
 	"time"
@@ -87,6 +88,10 @@ func (w *world) extend(t interface{ Fatalf(string, ...any) }, parent model.RawHe
 	return out
 }
 
+// genFates: what the block source does with one request; the slow variants keep the download active
+// across several of the block manager's request-delay ticks first.
+var genFates = []string{"nonode", "drop", "wrong", "serve", "slowdrop", "slowwrong", "slowserve"}
+
 // source is the scripted block source.
 type source struct {
 	w           *world
@@ -166,6 +171,12 @@ func (s *source) RequestBlock(ctx context.Context, hash bitcoin.Hash32, handler 
 	if fate == "nonode" {
 		return nil, bitcoin_reader.ErrNodeNotAvailable
 	}
+	// "slow..." fates: the download is still active when the manager's request delay (2 ms) ticks,
+	// several times, before it ends the way the rest of the name says
+	slow := time.Duration(0)
+	if strings.HasPrefix(fate, "slow") {
+		slow, fate = 9*time.Millisecond, fate[4:]
+	}
 	s.w.mu.Lock()
 	b := s.w.blocks[model.Hash(hash)]
 	s.w.mu.Unlock()
@@ -178,6 +189,9 @@ func (s *source) RequestBlock(ctx context.Context, hash bitcoin.Hash32, handler 
 		defer s.wg.Done()
 		if hold != nil {
 			<-hold
+		}
+		if slow > 0 {
+			time.Sleep(slow)
 		}
 		start := func(h model.RawHeader) (chan struct{}, bool) {
 			c.mu.Lock()
@@ -304,7 +318,7 @@ func (r *rig) processedOrder() []int {
 	return out
 }
 
-const ruleRound = "a real headers.Repository (difficulty off) with a generated best chain of 0..40 blocks (each header's merkle root is the txid of its own coinbase, so the one-transaction block is valid) and optionally a lighter side branch; StartBlockHeight drawn from {1, mid, tip-1, tip, tip+1}; already-processed set drawn from {none, prefix from the start height, a gap pattern, the tip}; a real NodeManager + BlockManager (1 concurrent request, 2 ms delay) over a scripted block source whose per-request behaviour is drawn {serve, no node (bursts <= 12), peer drops mid-block, wrong block}; ONE synchronisation round (verif hook VerifSynchronizeBlocks); oracle: the blocks handed to the processor (ProcessCoinbaseTx order) are exactly the best-chain blocks above the highest processed block reached walking down from the tip (or from the start height), in strictly ascending contiguous height order, each once, none below the start height, none already processed, none off the best chain; the first request for each block follows the same order; non-trivial = tip == start height, or a non-empty processed set, or a failure burst; distinct = (length, start class, processed pattern, fates)"
+const ruleRound = "a real headers.Repository (difficulty off) with a generated best chain of 0..40 blocks (each header's merkle root is the txid of its own coinbase, so the one-transaction block is valid) and optionally a lighter side branch; StartBlockHeight drawn from {1, mid, tip-1, tip, tip+1}; already-processed set drawn from {none, prefix from the start height, a gap pattern, the tip}; a real NodeManager + BlockManager (1 concurrent request, 2 ms delay) over a scripted block source whose per-request behaviour is drawn {serve, no node (bursts <= 12), peer drops mid-block, wrong block, and slow variants of serve/drop/wrong that keep the download active across several of the block manager's 2 ms request-delay ticks first}; ONE synchronisation round (verif hook VerifSynchronizeBlocks); oracle: the blocks handed to the processor (ProcessCoinbaseTx order) are exactly the best-chain blocks above the highest processed block reached walking down from the tip (or from the start height), in strictly ascending contiguous height order, each once, none below the start height, none already processed, none off the best chain; the first request for each block follows the same order; non-trivial = tip == start height, or a non-empty processed set, or a failure burst; distinct = (length, start class, processed pattern, fates)"
 
 func TestProp_C05_round(t *testing.T) {
 	col := evid.For("C05", "round", ruleRound)
@@ -330,7 +344,7 @@ func TestProp_C05_round(t *testing.T) {
 		var fates []string
 		nf := rapid.IntRange(0, 4).Draw(t, "failures")
 		for i := 0; i < nf; i++ {
-			f := rapid.SampledFrom([]string{"nonode", "drop", "wrong"}).Draw(t, "fate")
+			f := rapid.SampledFrom([]string{"nonode", "drop", "wrong", "slowdrop", "slowwrong", "slowserve"}).Draw(t, "fate")
 			if f == "nonode" {
 				for x := rapid.IntRange(0, 3).Draw(t, "burst"); x > 0; x-- {
 					fates = append(fates, "nonode")
@@ -471,7 +485,7 @@ func TestProp_C05_trigger(t *testing.T) {
 		start := rapid.IntRange(1, L).Draw(t, "start")
 		var fates []string
 		for i := rapid.IntRange(0, 3).Draw(t, "failures"); i > 0; i-- {
-			fates = append(fates, rapid.SampledFrom([]string{"nonode", "drop", "wrong", "serve"}).Draw(t, "fate"))
+			fates = append(fates, rapid.SampledFrom(genFates).Draw(t, "fate"))
 		}
 		r := newRig(w, start, fates)
 		defer r.close()
@@ -543,7 +557,7 @@ func TestProp_C05_waves(t *testing.T) {
 		start := rapid.IntRange(1, L).Draw(t, "start")
 		var fates []string
 		for i := rapid.IntRange(0, 2).Draw(t, "failures"); i > 0; i-- {
-			fates = append(fates, rapid.SampledFrom([]string{"nonode", "drop", "wrong", "serve"}).Draw(t, "fate"))
+			fates = append(fates, rapid.SampledFrom(genFates).Draw(t, "fate"))
 		}
 		r := newRig(w, start, fates)
 		defer r.close()
@@ -681,7 +695,7 @@ func TestProp_C05_recover(t *testing.T) {
 		start := rapid.IntRange(1, L).Draw(t, "start")
 		var fates []string
 		for i := rapid.IntRange(0, 2).Draw(t, "failures"); i > 0; i-- {
-			fates = append(fates, rapid.SampledFrom([]string{"nonode", "drop", "wrong", "serve"}).Draw(t, "fate"))
+			fates = append(fates, rapid.SampledFrom(genFates).Draw(t, "fate"))
 		}
 		failAt := rapid.IntRange(1, 4).Draw(t, "lookupFailAt")
 		r := newRigFlaky(w, start, fates, failAt)
@@ -921,7 +935,7 @@ func TestProp_C05_rounds(t *testing.T) {
 			"round": func(t *rapid.T) {
 				var fates []string
 				for i := rapid.IntRange(0, 2).Draw(t, "failures"); i > 0; i-- {
-					fates = append(fates, rapid.SampledFrom([]string{"nonode", "drop", "wrong"}).Draw(t, "fate"))
+					fates = append(fates, rapid.SampledFrom([]string{"nonode", "drop", "wrong", "slowdrop", "slowwrong", "slowserve"}).Draw(t, "fate"))
 				}
 				r.src.mu.Lock()
 				r.src.fates = fates
